@@ -830,7 +830,11 @@ void GlobalGraph::makeDirected()
       Node nodeB = currRelation.first;
       Edge edge = currRelation.second;
       if (alreadyConvertedRelations.insert(pair<Node, Node>(min(nodeA, nodeB), max(nodeA, nodeB))).second)
+      {
         linkInNodeStructure_(nodeA, nodeB, edge);
+        // the edge now goes from nodeA to nodeB
+        linkInEdgeStructure_(nodeA, nodeB, edge);
+      }
     }
   }
   directed_ = true;
